@@ -167,8 +167,38 @@ def gen_query(rng, with_keyed):
     return q, feats, ordered, nkeys
 
 
+def gen_big_cases(rng):
+    """Inputs that span several executor chunks (1024 rows out of the order executor, 2048-row scan
+    batches), with key groups straddling the boundaries: where sort-aggregation, merge join, top-N
+    and limit carry state from one chunk to the next."""
+    n = rng.choice([2300, 2600, 3100])
+    div = rng.choice([3, 7, 10])
+    rows = [(i // div + (1 if rng.random() < 0.02 else 0), rng.choice([0, 1, 2, 3, 5])) for i in range(n)]
+    rng.shuffle(rows)
+    setup = ["create table big(k int, v int)"]
+    for c in range(0, n, 400):
+        setup.append("insert into big values " + ", ".join("(%d, %d)" % r for r in rows[c:c + 400]))
+    m = rng.choice([30, 45])
+    small = [(rng.randrange(0, n // div + 2), rng.choice([0, 1, 2])) for _ in range(m)]
+    setup.append("create table sm(k int, w int)")
+    setup.append("insert into sm values " + ", ".join("(%d, %d)" % r for r in small))
+    off = rng.choice([1000, 1023, 1024, 1025, 2047, 2048, 2100])
+    qs = [
+        ("select k, count(*), sum(v), min(v), max(v) from (select k, v from big order by k) s group by k", ["big", "sortagg-candidate"], False),
+        ("select k, count(*) from (select k, v from big order by k desc) s group by k", ["big", "sortagg-candidate"], False),
+        ("select a.k, a.v, b.w from (select k, v from big order by k) a join (select k, w from sm order by k) b on a.k = b.k", ["big", "mergejoin-candidate"], False),
+        ("select a.k, b.w from (select k, v from big order by k) a left join (select k, w from sm order by k) b on a.k = b.k where a.v = 5", ["big", "mergejoin-candidate", "left-join"], False),
+        ("select b.w, a.k from (select k, w from sm order by k) b left join (select k, v from big order by k) a on a.k = b.k", ["big", "mergejoin-candidate", "left-join"], False),
+        ("select k, v from big order by k, v limit 7 offset %d" % off, ["big", "topn", "offset"], True),
+        ("select count(*) from (select k from big limit 900 offset %d) s" % off, ["big", "limit", "offset"], False),
+        ("select k, v from big where v = 5 order by k desc, v", ["big", "order"], True),
+        ("select v, count(*), sum(k) from big group by v", ["big", "hashagg"], False),
+    ]
+    return [{"setup": setup, "sql": q, "features": f, "ordered": o, "nkeys": 2 if o else 0} for q, f, o in qs]
+
+
 def gen_cases(rng, n):
-    cases = []
+    cases = gen_big_cases(rng)
     for k in range(n):
         with_keyed = rng.random() < 0.3
         setup = gen_setup(rng, with_keyed)
